@@ -101,6 +101,8 @@ def step (line : String) : String :=
     b01 (Git.gitIgnored (buildTree 8 (parseTreeEntries t)) (splitOnSlash (unhex p)) (d == "1"))
   | ["gtrack", t, date, dirs, files] =>
     showContents (Git.trackUpdate (unhex date) (parseTargets dirs) (parseTargets files) (buildTree 8 (parseTreeEntries t)))
+  | ["gmove", t, date, _, files] =>
+    showContents (Git.moveUpdate (unhex date) (parseTargets files) (buildTree 8 (parseTreeEntries t)))
   | ["ghandler", t, date, dirs, files] =>
     showContents (Git.handlerUpdate (unhex date) (parseTargets dirs) (parseTargets files) (buildTree 8 (parseTreeEntries t)))
   | ["const", "common"] => hex Gen.COMMON_IGNORE_PATTERNS.toList
